@@ -343,25 +343,40 @@ def joinBegin (net : Net) (j peer : Nat) : Net × Option Err :=
     | (net', .ok (prev, succs)) =>
       (net'.upd j (fun nd => { nd with succs := succs, pred := some prev, joinLocals := some (prev, succs.head?) }), none)
 
-/-- second half of `Join`: startTasks (stabilize, fixFinger), advisory to the predecessor,
-    Joining→Active, release of the successor's membership lock -/
-def joinEnd (net : Net) (j : Nat) : Net :=
+/-- `Join` after the pointer assignment, step 1: startTasks (stabilize, fixFinger; the periodic
+    predecessor check starts at once). Pending afterwards: the advisory to the predecessor. -/
+def joinTasks (net : Net) (j : Nat) : Net :=
+  checkPredecessor (fixFinger (stabilize net j) j) j
+
+/-- `Join`'s local variables (predecessor, successors[0]); fall back to the pointers when not recorded -/
+def joinLocalsOf (nd : Node) : Option Nat × Option Nat :=
+  match nd.joinLocals with
+  | some (p, s) => (some p, s)
+  | none => (nd.pred, nd.succs.head?)
+
+/-- step 2: advisory `FinishJoin(stabilize)` to the predecessor, then Joining→Active.
+    Pending afterwards: the release of the successor's membership lock. -/
+def joinAdvise (net : Net) (j : Nat) : Net :=
   match net.get j with
   | none => net
   | some nd =>
-    let net' := fixFinger (stabilize net j) j          -- startTasks: run once …
-    let net' := checkPredecessor net' j                -- … then the periodic predecessor check starts at once
-    -- `Join` keeps using its local variables, whatever Notify did to the pointers meanwhile
-    let (prev?, succ?) : Option Nat × Option Nat := match nd.joinLocals with
-      | some (p, s) => (some p, s)
-      | none => (nd.pred, nd.succs.head?)
-    let net' := match prev? with
-      | some prev => finish net' prev true false        -- advisory to predecessor
-      | none => net'
-    let net' := net'.upd j (fun nd => { nd with state := .active, joinLocals := none })
-    match succ? with
-    | some s => finish net' s false true                -- release successor's membership lock
+    let net' := match (joinLocalsOf nd).1 with
+      | some prev => finish net prev true false
+      | none => net
+    net'.upd j (fun nd => { nd with state := .active })
+
+/-- step 3: `FinishJoin(release)` to the successor -/
+def joinRelease (net : Net) (j : Nat) : Net :=
+  match net.get j with
+  | none => net
+  | some nd =>
+    let net' := net.upd j (fun nd => { nd with joinLocals := none })
+    match (joinLocalsOf nd).2 with
+    | some s => finish net' s false true
     | none => net'
+
+/-- second half of `Join`: tasks, advisory, activation, release — in the order of the code -/
+def joinEnd (net : Net) (j : Nat) : Net := joinRelease (joinAdvise (joinTasks net j) j) j
 
 /-- `Join(peer)` at node `j` (single attempt of executeJoin) -/
 def join (net : Net) (j peer : Nat) : Net × Option Err :=
